@@ -52,7 +52,7 @@ func c10KindAssertion(r *core.Report) {
 			}
 			return true
 		})
-		info := op.Pkg.TypesInfo
+		_ = op.Pkg.TypesInfo
 		g := p.Graph(op)
 		ok, n := wkind != nil, 0
 		why := ""
@@ -75,28 +75,9 @@ func c10KindAssertion(r *core.Report) {
 				continue
 			}
 			n++
-			asserted := false
-			for _, d := range g.Dominators(rn) {
-				if d.Kind != core.KEdge || d.Truth || d.Ast == nil {
-					continue
-				}
-				// the condition `err != nil` of `if err := meta.AssertIndexKind(K); err != nil`
-				for _, dd := range g.Dominators(d) {
-					if dd.Kind != core.KStmt {
-						continue
-					}
-					for _, c := range nodeCalls(dd) {
-						if core.CalleeName(info, c) == "indexes.(*Metadata).AssertIndexKind" && len(c.Args) == 1 {
-							if core.ObjOf(info, c.Args[0]) == wkind {
-								if as, isAs := dd.Ast.(*ast.AssignStmt); isAs && len(as.Lhs) == 1 && core.Mentions(info, d.Ast, core.ObjOf(info, as.Lhs[0])) {
-									asserted = true
-								}
-							} else {
-								why = "asserts kind " + core.ExprStr(c.Args[0]) + " but the writer stores " + wkind.Name()
-							}
-						}
-					}
-				}
+			asserted, w2 := kindAssertedAt(p, op, rn, func(fi *types.Info, e ast.Expr) bool { return core.ObjOf(fi, e) == wkind }, 0)
+			if w2 != "" {
+				why = w2 + " but the writer stores " + wkind.Name()
 			}
 			if !asserted {
 				ok = false
@@ -210,16 +191,31 @@ func c10IdentityChain(r *core.Report) {
 				continue
 			}
 			c, ok := core.Unparen(as.Rhs[0]).(*ast.CallExpr)
-			if !ok || len(c.Args) != 1 || !mentionsX(c.Fun) {
+			if !ok {
 				continue
 			}
 			nm := core.CalleeName(info, c)
-			isEpoch := strings.HasSuffix(nm, "Metadata).AssertEpoch") && callsEpochGetter(info, c.Args[0])
-			isRoot := strings.HasSuffix(nm, "Metadata).AssertRootCid") && core.ObjOf(info, c.Args[0]) == rootVar
+			isEpoch, isRoot := false, false
+			if len(c.Args) == 1 && mentionsX(c.Fun) {
+				isEpoch = strings.HasSuffix(nm, "Metadata).AssertEpoch") && callsEpochGetter(info, c.Args[0])
+				isRoot = strings.HasSuffix(nm, "Metadata).AssertRootCid") && core.ObjOf(info, c.Args[0]) == rootVar
+			}
+			if !isEpoch && !isRoot {
+				// a comparing helper of this function / package: checkEpoch(what, X.Meta().Epoch), checkRootCid(what, got)
+				for ai, a := range c.Args {
+					if !mentionsX(a) {
+						continue
+					}
+					for _, h := range calleesOfCall(p, f, c) {
+						e1, r1 := comparingHelper(p, h, ai, rootVar)
+						isEpoch, isRoot = isEpoch || e1, isRoot || r1
+					}
+				}
+			}
 			if !isEpoch && !isRoot {
 				continue
 			}
-			eo := core.ObjOf(info, as.Lhs[0])
+			eo := core.ObjOf(info, as.Lhs[len(as.Lhs)-1])
 			for _, e := range g.Nodes {
 				if e.Kind != core.KEdge || e.Ast == nil || !g.Dominates(n, e) {
 					continue
@@ -255,6 +251,35 @@ func c10IdentityChain(r *core.Report) {
 	for _, e := range g.Nodes {
 		if e.Kind == core.KEdge && e.Ast != nil && !e.Truth && core.Mentions(info, e.Ast, rootVar) && strings.Contains(core.ExprStr(e.Ast), "Filecoin.RootCID") && leadsToErrorOnly(g, f, siblingEdge(e)) {
 			okFil = true
+		}
+	}
+	// ... or through a comparing helper: if err := checkRootCid("lassie", config.Data.Filecoin.RootCID); err != nil { return }
+	for _, n := range stmtNodes(g) {
+		as, ok := n.Ast.(*ast.AssignStmt)
+		if !ok || len(as.Rhs) != 1 || len(as.Lhs) != 1 {
+			continue
+		}
+		c, ok := core.Unparen(as.Rhs[0]).(*ast.CallExpr)
+		if !ok {
+			continue
+		}
+		for ai, a := range c.Args {
+			if !strings.Contains(core.ExprStr(a), "Filecoin.RootCID") {
+				continue
+			}
+			for _, h := range calleesOfCall(p, f, c) {
+				if _, isRoot := comparingHelper(p, h, ai, rootVar); isRoot {
+					eo := core.ObjOf(info, as.Lhs[0])
+					for _, e := range g.Nodes {
+						if e.Kind != core.KEdge || e.Ast == nil || !g.Dominates(n, e) {
+							continue
+						}
+						if x, isNil, isCmp := core.NilCompare(info, e.Ast.(ast.Expr)); isCmp && core.ObjOf(info, x) == eo && isNil == e.Truth && leadsToErrorOnly(g, f, siblingEdge(e)) {
+							okFil = true
+						}
+					}
+				}
+			}
 		}
 	}
 	r.Check(okFil, rule, f.Key+"#filecoin-root-compared", posP(r, f.Pos()), "the configured Filecoin root CID is compared with the indexes' root CID", "the configured Filecoin root CID is not compared with the root CID recorded in the indexes")
@@ -678,4 +703,138 @@ func resultOfCall(f *core.Func, e ast.Expr, suffix string) bool {
 		}
 	}
 	return false
+}
+
+// kindAssertedAt: the return rn of fn is only reached after meta.AssertIndexKind(K) succeeded, with K satisfying isKind -
+// directly, or inside a helper that fn calls with K as an argument and whose own success returns are all reached only
+// after the assertion on that parameter (getMetadataOfKind(index, K)).
+func kindAssertedAt(p *core.Prog, fn *core.Func, rn *core.GNode, isKind func(*types.Info, ast.Expr) bool, depth int) (bool, string) {
+	info := fn.Pkg.TypesInfo
+	g := p.Graph(fn)
+	why := ""
+	for _, d := range g.Dominators(rn) {
+		if d.Kind != core.KEdge || d.Ast == nil {
+			continue
+		}
+		// the surviving side of `if err := ...; err != nil { return }`: err is known nil on d
+		x, isNil, isCmp := core.NilCompare(info, d.Ast.(ast.Expr))
+		if !isCmp || isNil != d.Truth {
+			continue
+		}
+		eo := core.ObjOf(info, x)
+		if eo == nil || !core.IsErrorType(eo.Type()) {
+			continue
+		}
+		for _, dd := range g.Dominators(d) {
+			as, isAs := dd.Ast.(*ast.AssignStmt)
+			if dd.Kind != core.KStmt || !isAs || len(as.Rhs) != 1 || core.ObjOf(info, as.Lhs[len(as.Lhs)-1]) != eo {
+				continue
+			}
+			// no other assignment of err between the call and the test
+			stale := false
+			for _, m := range stmtNodes(g) {
+				if m != dd && g.Dominates(dd, m) && g.Dominates(m, d) && core.AssignsObj(info, m.Ast, eo) {
+					stale = true
+				}
+			}
+			c, isCall := core.Unparen(as.Rhs[0]).(*ast.CallExpr)
+			if stale || !isCall {
+				continue
+			}
+			if core.CalleeName(info, c) == "indexes.(*Metadata).AssertIndexKind" && len(c.Args) == 1 {
+				if isKind(info, c.Args[0]) {
+					return true, ""
+				}
+				why = "asserts kind " + core.ExprStr(c.Args[0])
+				continue
+			}
+			if depth >= 2 {
+				continue
+			}
+			fo := core.Callee(info, c)
+			if fo == nil {
+				continue
+			}
+			h := p.ByObj[fo.Origin()]
+			if h == nil || h.Body == nil {
+				continue
+			}
+			for ai, a := range c.Args {
+				po := h.ParamObj(ai)
+				if po == nil || !isKind(info, a) {
+					continue
+				}
+				hg := p.Graph(h)
+				all, nret := true, 0
+				for _, hr := range hg.Returns() {
+					if definitelyErrorReturn(hg, h, hr) {
+						continue
+					}
+					nret++
+					if ok, _ := kindAssertedAt(p, h, hr, func(hi *types.Info, e ast.Expr) bool { return core.ObjOf(hi, e) == types.Object(po) }, depth+1); !ok {
+						all = false
+					}
+				}
+				if all && nret > 0 {
+					return true, ""
+				}
+			}
+		}
+	}
+	return false, why
+}
+
+// calleesOfCall: the repository functions a call may run when its callee is a declared function or a local closure
+// variable of f.
+func calleesOfCall(p *core.Prog, f *core.Func, c *ast.CallExpr) []*core.Func {
+	info := f.Pkg.TypesInfo
+	if fo := core.Callee(info, c); fo != nil {
+		if h := p.ByObj[fo.Origin()]; h != nil && h.Body != nil {
+			return []*core.Func{h}
+		}
+		return nil
+	}
+	if v, ok := core.ObjOf(info, c.Fun).(*types.Var); ok && !v.IsField() {
+		return p.FuncValuesOf(v, f)
+	}
+	return nil
+}
+
+// comparingHelper: every success return of h is reached only after its parameter #idx was found equal to the number of
+// the epoch being loaded ((*Epoch).Epoch(): isEpoch) or to the running root CID variable (isRoot), the other outcome of
+// the comparison returning an error.
+func comparingHelper(p *core.Prog, h *core.Func, idx int, rootVar types.Object) (isEpoch, isRoot bool) {
+	po := h.ParamObj(idx)
+	if po == nil || h.Body == nil {
+		return false, false
+	}
+	info := h.Pkg.TypesInfo
+	g := p.Graph(h)
+	epochAll, rootAll, nret := true, true, 0
+	for _, rn := range g.Returns() {
+		if definitelyErrorReturn(g, h, rn) {
+			continue
+		}
+		nret++
+		e1, r1 := false, false
+		for _, fc := range g.FactsAt(rn) {
+			if fc.Tag != nil || fc.Edge == nil || !core.Mentions(info, fc.Expr, po) || !isEqualityTest(info, fc.Expr) || !assertsEqual(info, fc.Expr, fc.Truth) {
+				continue
+			}
+			if !leadsToErrorOnly(g, h, siblingEdge(fc.Edge)) {
+				continue
+			}
+			if callsEpochGetter(info, fc.Expr) {
+				e1 = true
+			}
+			if rootVar != nil && core.Mentions(info, fc.Expr, rootVar) {
+				r1 = true
+			}
+		}
+		epochAll, rootAll = epochAll && e1, rootAll && r1
+	}
+	if nret == 0 {
+		return false, false
+	}
+	return epochAll, rootAll
 }
